@@ -1256,7 +1256,11 @@ impl<'p> Evaluator<'_, 'p> {
             }));
         };
 
-        let main_thunk = self.program.find_object_field_thunk(&ini, 0, main_name);
+        let main_thunk = if ini.has_visible_field(main_name) {
+            self.program.find_object_field_thunk(&ini, 0, main_name)
+        } else {
+            None
+        };
 
         self.string_stack.push(String::new());
         self.state_stack.push(State::StringToValue);
